@@ -88,7 +88,8 @@ public:
             const XalanDOMString&   theTargetString,
             const XPath&            theMatchPattern,
             const XalanDOMString&   thePatternString,
-            data_type::eMatchScore  thePriority);
+            data_type::eMatchScore  thePriority,
+            data_type::size_type    theAlternative);
 
     /**
      * Determine if an object is owned by the allocator...
